@@ -209,26 +209,49 @@ def _clauses(text):
     return [c for c in CLAUSE_ORDER + ["UnknownOp"] if '"%s"' % c in text]
 
 
+JUDGED = ("op", "seq", "mode", "k", "raised", "divs", "locs", "data")     # the fields TLC sees
+
+
+class Verdicts:
+    """Collects call records and lets ONE TLC run decide them.  Records with identical judged fields
+    (same call, same result - e.g. the same case under another index dtype) share one verdict; only
+    the first two members of each class are kept (memory), the rest are counted."""
+
+    def __init__(self):
+        self.uniq, self.members, self.n = {}, {}, 0
+
+    def add(self, recs):
+        for r in recs:
+            self.n += 1
+            key = json.dumps({k: r[k] for k in JUDGED if k in r}, sort_keys=True)
+            if key not in self.uniq:
+                self.uniq[key] = "u%d" % len(self.uniq)
+            m = self.members.setdefault(self.uniq[key], [0, []])
+            m[0] += 1
+            if len(m[1]) < 2:
+                m[1].append(r)
+
+    def decide(self, ctx, label):
+        """-> [(record, clauses, multiplicity)] for the rejected classes (one entry per kept member)."""
+        if not self.uniq:
+            return []
+        spec, cfg = ctx.model(ctx.spec("frame", "DivisionsTrace.tla"), {})
+        ulist = [dict(json.loads(key), id=uid) for key, uid in self.uniq.items()]
+        bad = []
+        for lo in range(0, len(ulist), 25000):
+            rej = ctx.tlc_validate(spec, ulist[lo:lo + 25000], cfg, label=label, timeout=1800)
+            for uid, texts in rej.items():
+                cnt, kept = self.members[uid]
+                for j, r in enumerate(kept):
+                    bad.append((r, _clauses(" ".join(texts)), 1 if j else cnt - len(kept) + 1))
+        ctx.traces += self.n - len(ulist)      # identical call records share one TLC verdict
+        return bad
+
+
 def decide(ctx, recs, label):
-    """TLC decides every record (identical records are sent once).  Returns [(rec, clauses)] for rejected ones."""
-    if not recs:
-        return []
-    uniq, members = {}, {}
-    for r in recs:
-        key = json.dumps({k: v for k, v in r.items() if k in ("op", "seq", "mode", "k", "raised", "divs", "locs", "data")}, sort_keys=True)
-        if key not in uniq:
-            uniq[key] = dict(json.loads(key), id="u%d" % len(uniq))
-        members.setdefault(uniq[key]["id"], []).append(r)
-    spec, cfg = ctx.model(ctx.spec("frame", "DivisionsTrace.tla"), {})
-    ulist = list(uniq.values())
-    bad = []
-    for lo in range(0, len(ulist), 20000):
-        rej = ctx.tlc_validate(spec, ulist[lo:lo + 20000], cfg, label=label, timeout=1800)
-        for uid, texts in rej.items():
-            for r in members[uid]:
-                bad.append((r, _clauses(" ".join(texts))))
-    ctx.traces += len(recs) - len(ulist)      # identical call records share one TLC verdict
-    return bad
+    v = Verdicts()
+    v.add(recs)
+    return [(r, c) for r, c, _ in v.decide(ctx, label)]
 
 
 def sdl_records(items):
@@ -297,8 +320,8 @@ def run(ctx):
     # spec -> code: every case x every index dtype through the real function
     items = [(c["c"]["seq"], c["c"]["mode"], c["c"]["k"], kind, "direct") for c in cases for kind in KINDS]
     # ... a sample of them observed through from_pandas
-    pool = [c for c in cases if len(c["c"]["seq"]) >= 2]
-    for c in rng.sample(pool, min(ctx.pick(700, 8000), len(pool))):
+    cands = [c for c in cases if len(c["c"]["seq"]) >= 2]
+    for c in rng.sample(cands, min(ctx.pick(700, 8000), len(cands))):
         items.append((c["c"]["seq"], c["c"]["mode"], c["c"]["k"],
                       rng.choice(["int-index", "float-index", "str-index", "datetime-index"]), "from_pandas"))
     # code -> spec: larger random sorted sequences
@@ -307,18 +330,23 @@ def run(ctx):
         a = rng.randint(1, min(n, 14))
         seq = sorted(rng.randrange(a) for _ in range(n))
         items.append((seq, rng.choice(["n", "c"]), rng.randint(1, n + 3), rng.choice(KINDS), "direct"))
-    recs, skips = sdl_records(items)
     # is the proved transcription (still) the running code?
     expected = {(tuple(c["c"]["seq"]), c["c"]["mode"], c["c"]["k"]): c["e"] for c in cases}
-    mism = 0
-    for r in recs:
-        ctx.count(("sdl", r["via"], r["seq"], r["mode"], r["k"], r["kind"]), len(set(r["seq"])) >= 2)
-        e = expected.get((tuple(r["seq"]), r["mode"], r["k"]))
-        if e is not None and r["via"] == "direct" and (r["raised"] or r["divs"] != list(e["divs"]) or r["locs"] != list(e["locs"])):
-            mism += 1
-            if mism == 1:
-                ctx.extra["transcription_mismatch_example"] = {"case": [r["seq"], r["mode"], r["k"], r["kind"]],
-                                                               "code": [r["divs"], r["locs"], r["raised"]], "transcription": e}
+    pool, mism, shown = Verdicts(), 0, []
+    for lo in range(0, len(items), 50000):
+        recs, skips = sdl_records(items[lo:lo + 50000])
+        for s in skips:
+            ctx.skip(s)
+        for r in recs:
+            ctx.count(("sdl", r["via"], r["seq"], r["mode"], r["k"], r["kind"]), len(set(r["seq"])) >= 2)
+            e = expected.get((tuple(r["seq"]), r["mode"], r["k"]))
+            if e is not None and r["via"] == "direct" and (r["raised"] or r["divs"] != list(e["divs"]) or r["locs"] != list(e["locs"])):
+                mism += 1
+                if mism == 1:
+                    ctx.extra["transcription_mismatch_example"] = {"case": [r["seq"], r["mode"], r["k"], r["kind"]],
+                                                                   "code": [r["divs"], r["locs"], r["raised"]], "transcription": e}
+        pool.add(recs)
+        shown = recs[-1:] + [x for x in recs if x["via"] == "from_pandas"][:1] or shown
     ctx.extra["transcription_mismatches"] = mism
     if mism:
         print("NOTE C45: the PlusCal transcription differs from the running code on %d calls (transcription stale; "
@@ -327,15 +355,17 @@ def run(ctx):
     qrecs, qskips = quantile_records(quantile_cases(rng, *ctx.pick((1200, 400, 3000), (12000, 4000, 40000))))
     for r in qrecs:
         ctx.count(("q", r["case"]), len(set(r["data"])) >= 2)
-    for s in skips + qskips:
+    for s in qskips:
         ctx.skip(s)
+    pool.add(qrecs)
     # one TLC run decides every recorded call
-    for rec, clauses in decide(ctx, recs + qrecs, "contract:recorded-calls"):
+    for rec, clauses, mult in pool.decide(ctx, "contract:recorded-calls"):
         what = WHAT["quantiles" if rec["op"] == "quantiles" else rec["via"]]
-        ctx.violation(classify(rec, clauses), "%s: clauses %s fail" % (what, clauses), {"record": rec, "clauses": clauses})
+        for _ in range(mult):
+            ctx.violation(classify(rec, clauses), "%s: clauses %s fail" % (what, clauses), {"record": rec, "clauses": clauses})
     mid = cases[len(cases) // 2]
     ctx.sample({"case": mid["c"], "transcription_result": mid["e"]})
-    for r in (recs[-1:] + [x for x in recs if x["via"] == "from_pandas"][:1]):
+    for r in shown:
         ctx.sample({"recorded_call": {k: r[k] for k in ("via", "seq", "mode", "k", "kind", "divs", "locs")}})
     if qrecs:
         ctx.sample({"quantile_call": qrecs[0]["case"], "divs_as_ranks": qrecs[0]["divs"], "data_as_ranks": qrecs[0]["data"]})
